@@ -182,7 +182,8 @@ func runCheck(args []string) int {
 	}
 	// solve in parallel
 	var wg sync.WaitGroup
-	sem := make(chan struct{}, 6)
+	par := 6 // (solver processes are bounded separately, see cpuTokens)
+	sem := make(chan struct{}, par)
 	resCh := make([][]*Result, len(vcs))
 	for i, vc := range vcs {
 		wg.Add(1)
